@@ -230,7 +230,7 @@ func checkCacheLoader(p *Prog, r *Report) {
 	}
 	// 6/4 byte guard (C06.R2)
 	sub := NewReport("C11", r.Tier)
-	checkARPGuard(p, sub, proc, Paths(proc))
+	checkARPGuard(p, sub, proc, PathsInl(proc))
 	for _, o := range sub.Obs {
 		o2 := *o
 		o2.Rule = "C11.R2"
@@ -411,7 +411,7 @@ func checkResolver(p *Prog, r *Report) {
 	var lookupFn *ssa.Function
 	nPaths := 0
 	sawMac, sawNone := false, false
-	for _, s := range Paths(g).From(heads[0]) {
+	for _, s := range PathsInl(g).From(heads[0]) {
 		var look *Event
 		for _, e := range s.Events {
 			if e.Kind == EvCall && e.Call.Signature().Params().Len() == 1 && e.Call.Signature().Results().Len() == 1 &&
